@@ -75,6 +75,9 @@ func (ds *DirStructure) EnsureAbsPath(dirPath string) error {
 		return ds.Parent.EnsureAbsPath(dirPath)
 	}
 
+	// resolve ".." and "." elements first, they would bypass the scope check below
+	dirPath = filepath.Clean(dirPath)
+
 	// check if root
 	if dirPath == ds.Path {
 		return ds.ensure(nil)
